@@ -80,7 +80,7 @@ fn the_primitive_fn<S: TheCompatible>(
                     if input.state().is_current_font_command(*tag) {
                         font_to_tokens(the_token, input, input.vm().current_font());
                     } else {
-                        todo!("should return an error")
+                        return Err(invalid_argument_error(input, token));
                     }
                 }
                 None
@@ -90,13 +90,24 @@ fn the_primitive_fn<S: TheCompatible>(
                     | command::Command::Execution(..)
                     | command::Command::CharacterTokenAlias(..),
                 ) => {
-                    todo!("should return an error")
+                    return Err(invalid_argument_error(input, token));
                 }
             }
         }
-        _ => todo!("should return an error"),
+        _ => return Err(invalid_argument_error(input, token)),
     };
     Ok(())
+}
+
+/// TeX.2021.428: "You can't use `x' after \the".
+fn invalid_argument_error<S: TheCompatible>(
+    input: &mut vm::ExpansionInput<S>,
+    token: token::Token,
+) -> vm::ShutdownSignal {
+    input.fatal_error(error::SimpleTokenError::new(
+        token,
+        r"this token cannot be used after \the; expected a variable, a character command or a font",
+    ))
 }
 
 fn font_to_tokens<S: TexlangState + TheCompatible>(
